@@ -92,18 +92,19 @@ def obligations():
                 """the key as a tuple of components: tuples and single-assignment locals that merely name / group other values are expanded"""
                 if isinstance(e, ast.Tuple):
                     return [c for x in e.elts for c in components(x, seen)]
-                if isinstance(e, ast.Name) and e.id in assigns and len(assigns[e.id]) == 1 and e.id not in seen and isinstance(assigns[e.id][0], (ast.Tuple, ast.Name)):
+                if isinstance(e, ast.Name) and e.id in assigns and len(assigns[e.id]) == 1 and e.id not in seen and isinstance(assigns[e.id][0], (ast.Tuple, ast.Name, ast.Attribute, ast.Call)):
                     return [e] + components(assigns[e.id][0], seen + (e.id,))
                 return [e]
 
             def root(e):
-                """the variable a component is (an injective view of): v, v.name (a type's name identifies it within one schema), tuple(v) / frozenset(v).
+                """the variable a component is (an injective view of): v, v.name (a type's name identifies it within one schema), tuple(v) / frozenset(v), id(v) (identity, for objects
+                that outlive the memo).
                 Any other attribute (v.__class__, v.kind ...) does not determine v."""
                 if isinstance(e, ast.Attribute):
                     if e.attr != "name":
                         return None
                     e = e.value
-                if isinstance(e, ast.Call) and isinstance(e.func, ast.Name) and e.func.id in ("tuple", "frozenset") and len(e.args) == 1 and not e.keywords:
+                if isinstance(e, ast.Call) and isinstance(e.func, ast.Name) and e.func.id in ("tuple", "frozenset", "id") and len(e.args) == 1 and not e.keywords:
                     return root(e.args[0])
                 return e.id if isinstance(e, ast.Name) else None
             comp_roots = {root(c) for c in components(key)} - {None}
